@@ -536,6 +536,25 @@ impl Wal {
         Ok(())
     }
 
+    /// Drops whatever follows the last whole record (a torn append, garbage left by a crash).
+    ///
+    /// Recovery ignores such a tail, but later appends would land behind it and be ignored
+    /// together with it by the next recovery, so it has to go before the log is written again.
+    pub fn truncate_torn_tail(&mut self) -> Result<()> {
+        let mut reader = WalReader::open(&self.path)?;
+        while reader.next_record()?.is_some() {}
+        let valid_len = reader.offset;
+
+        let Some(file) = self.file.as_mut() else {
+            return Err(Error::WalProtocol("wal file is closed"));
+        };
+        if file.metadata()?.len() > valid_len {
+            file.set_len(valid_len)?;
+            file.sync_data()?;
+        }
+        Ok(())
+    }
+
     pub fn rewrite_as_snapshot(&mut self, txid: u64, ops: Vec<WalRecord>) -> Result<()> {
         // Close the current file handle so we can replace it safely.
         let _ = self.file.take();
